@@ -5,6 +5,20 @@
 (b) synthetic schemes: all subsets of a pool of centre patterns x remap variant
     x correction-descriptor variant, written to disk and loaded through
     GroupAdditivityScheme.Load.
+(c) third wave (domains/w3_c02.py), same oracle, same route through Load:
+    N  centre-NAME sharing: every subset of the pool with the carbon-centred
+       patterns renamed to one shared centre name (peripheral names distinct /
+       shared too / centre name 'none'), or with its first entry listed twice,
+       x remap variant {none, 1:1, one-to-two}: overlapping patterns must fail
+       whatever they are called, non-overlapping ones may share a name;
+    R  remap shapes x source kinds: 7 coefficient-list shapes (unit,
+       fractional, two targets 2,1 / 1,2, three targets, one target twice,
+       zero and negative) x source {group, 2-atom descriptor, ring descriptor}
+       x the 4 descriptor variants x every pool subset holding the sp3-C and H
+       patterns;
+    E  shipped schemes on all substituted ethenes R1R2C=CR3R4 over
+       {H, Me, Et, tBu}, with none / E / Z stereo marks where the bond can
+       carry them (97 molecules).
 Oracle: models/schemeref.py (independent scheme interpreter over ringref).
 """
 import os
@@ -14,6 +28,7 @@ from ..runner import Result
 from ..models import schemeref as SR
 from ..domains import schemes as SD
 from ..domains import libs
+from ..domains import w3_c02 as W3
 
 LEVEL = 'exploration'
 BOUND = {
@@ -21,10 +36,18 @@ BOUND = {
              'Pt/Ru adsorbates + curated + outside-vocabulary molecules, and '
              'all 9 library names on the curated list; synthetic: all non-empty '
              'subsets of a 5-pattern pool x 5 remap variants x 4 descriptor '
-             'variants on M(2)+8',
+             'variants on M(2)+8; third wave: 31 subsets x 4 name-sharing '
+             'variants x 3 remap variants (372 schemes) and 8 subsets (those '
+             'with the sp3-C and H patterns) x 3 remap sources x 7 remap '
+             'shapes x 4 descriptor variants (672 schemes) on M(2)+8; the 6 '
+             'distinct scheme files on the 97 substituted ethenes over '
+             '{H, Me, Et, tBu} x {no, E, Z} stereo marks',
     'thorough': 'shipped: M(4) C/O with radicals + closed-shell M(5); '
                 'synthetic: all 255 subsets of the 8-pattern pool x 5 x 4 on '
-                'M(3)+8'}
+                'M(3)+8; third wave: 255 subsets x 4 name-sharing variants '
+                'x 3 remap variants (3060 schemes) and 64 subsets x 3 x 7 x 4 '
+                '(5376 schemes) on M(3)+8; the 97 substituted ethenes as in '
+                'quick'}
 RULE = ('every (scheme, molecule) pair is decomposed by the implementation and '
         'by the reference interpreter; compared: success vs PatternMatchError, '
         'the total dictionary (1e-9) and - through a harness-side wrapper of '
@@ -47,9 +70,15 @@ MANIFEST = dict(
          'and compared with GetDescriptors on every molecule of an '
          'exhaustively enumerated vocabulary, including per-atom assignments '
          'and the failure clause; synthetic schemes cover overlapping / '
-         'missing centre patterns, remap shapes and descriptor shapes.',
+         'missing centre patterns, remap shapes and descriptor shapes, '
+         'centre patterns that share a centre name (overlapping or not, '
+         'including a scheme entry listed twice), and seven remap shapes '
+         '(one / two / three targets, coefficients 0, -1, 0.5, 1, 2, 3, a '
+         'target named twice) on a group and on correction descriptors; the shipped '
+         'schemes are also run on all substituted ethenes over '
+         '{H, Me, Et, tBu} with and without E/Z marks.',
     note='Molecules larger than the enumeration bound only through the '
-         'curated list.',
+         'curated list and the substituted-ethene family.',
     ref='5/C02')
 
 _CAPTURE = {'mol': None, 'installed': None}
@@ -241,6 +270,40 @@ def run_synthetic(R, descs, tier, only=None):
                              smiles=smi))
 
 
+def run_w3_synthetic(R, descs, tier, only=None):
+    """Families N and R of domains/w3_c02.py: like run_synthetic, other
+    scheme dictionaries."""
+    from pgradd.GroupAdd.Scheme import GroupAdditivityScheme
+    mols = SD.synthetic_molecules(tier)
+    with tempfile.TemporaryDirectory(prefix='pgv_c02_') as d:
+        for desc in descs:
+            dd = W3.scheme_dict(desc)
+            p = SD.write_scheme(dd, d)
+            tag = W3.tag(desc)
+            try:
+                impl = GroupAdditivityScheme.Load(p)
+            except Exception as e:     # noqa
+                R.evals += 1
+                R.violation('%s:load-%s' % (tag.split('/')[0], type(e).__name__),
+                            'scheme %r cannot be loaded: %s' % (desc, e),
+                            dict(kind='synthetic-w3', desc=W3.to_json(desc),
+                                 smiles=None))
+                continue
+            S = SR.scheme_from_dict(dd)
+            for smi in (mols if only is None else [only]):
+                compare(R, tag, impl, S, smi,
+                        dict(kind='synthetic-w3', desc=W3.to_json(desc),
+                             smiles=smi))
+
+
+def run_ethenes(R, name, i, n):
+    """Family E: a shipped scheme on the substituted ethenes."""
+    impl, S = shipped(name)
+    for smi in W3.ethenes()[i::n]:
+        compare(R, 'shipped/' + name, impl, S, smi,
+                dict(kind='shipped', scheme=name, smiles=smi))
+
+
 def shards(tier, seed):
     out = []
     for name in SD.distinct_schemes():
@@ -253,6 +316,12 @@ def shards(tier, seed):
     nch = 16 if tier == 'quick' else 64
     for i in range(nch):
         out.append(('synthetic', i, nch))
+    nch = 24 if tier == 'quick' else 96
+    for i in range(nch):
+        out.append(('synthetic-w3', i, nch))
+    for name in SD.distinct_schemes():
+        for i in range(2):
+            out.append(('ethenes', name, i, 2))
     return out
 
 
@@ -263,6 +332,10 @@ def run_shard(shard, tier):
         run_shipped(R, shard[1], shard[2], shard[3], tier)
     elif shard[0] == 'names':
         run_names(R, shard[1])
+    elif shard[0] == 'synthetic-w3':
+        run_w3_synthetic(R, W3.schemes(tier)[shard[1]::shard[2]], tier)
+    elif shard[0] == 'ethenes':
+        run_ethenes(R, shard[1], shard[2], shard[3])
     else:
         descs = list(SD.synthetic_schemes(tier))[shard[1]::shard[2]]
         run_synthetic(R, descs, tier)
@@ -279,6 +352,8 @@ def replay(w):
         lib = libs.load(w['scheme'])
         S = SR.load_scheme(SD.scheme_path(w['scheme']))
         compare(R, 'library/' + w['scheme'], lib, S, w['smiles'], w)
+    elif w['kind'] == 'synthetic-w3':
+        run_w3_synthetic(R, [W3.from_json(w['desc'])], 'quick', only=w['smiles'])
     else:
         desc = (tuple(w['desc'][0]), w['desc'][1], w['desc'][2])
         run_synthetic(R, [desc], 'quick', only=w['smiles'])
